@@ -1808,7 +1808,7 @@ def evaluate__round(self: XPathFunction, context: ta.ContextType = None) \
         exponent = decimal.Decimal(1).scaleb(-precision)
         rounding = 'ROUND_HALF_UP' if number > 0 else 'ROUND_HALF_DOWN'
         with decimal.localcontext() as ctx:
-            ctx.prec = max(ctx.prec, len(number.as_tuple().digits) + 1)
+            ctx.prec = max(ctx.prec, number.adjusted() + 2 + max(precision, 0))
             result = number.quantize(exponent, rounding=rounding)
             if precision < 0:
                 result = result.quantize(decimal.Decimal(1))
